@@ -87,7 +87,7 @@ func init() {
 				return fmt.Sprintf("thread %d: %s\t!memoized function failed under concurrency", i, r)
 			}
 		}
-		if o := w.evalObs(bg, "(deref runs)"); o != fmt.Sprintf("ok I%d", k*per) {
+		if o := evalW(w, "(deref runs)"); o != fmt.Sprintf("ok I%d", k*per) {
 			return fmt.Sprintf("%s\t!memoize lost cache entries: the function ran %s times for %d distinct arguments, each called twice by one thread", o, strings.TrimPrefix(o, "ok I"), k*per)
 		}
 		return "ok"
@@ -107,7 +107,7 @@ func init() {
 				return "setup-error"
 			}
 			// let the body finish
-			if o := w.evalObs(bg, "(try (deref f) (catch e :failed))"); !strings.HasPrefix(o, "ok") {
+			if o := evalW(w, "(try (deref f) (catch e :failed))"); !strings.HasPrefix(o, "ok") {
 				return "setup-error " + o
 			}
 			dead, cancel := context.WithCancel(bg)
